@@ -243,6 +243,14 @@ def _corrupt(draw):
         ps = list(G.paths(doc))
         path = list(ps[draw(st.integers(0, 10 ** 6)) % len(ps)])
         op = MU.OPS[draw(st.integers(0, 10 ** 6)) % len(MU.OPS)]
+        node = G.get_path(doc, path)
+        if draw(st.integers(0, 2)) > 0 and type(node) in (str, int):
+            # two times in three a leaf gets an edit of its own grammar (time spellings, hex near-misses, numeric neighbours)
+            # rather than one of the ~50 type-confusing replacements
+            own = (["int:" + e for e in MU.INT_EDITS] if type(node) is int else
+                   ["time:" + e for e in MU.TIME_EDITS] + ["str:" + e for e in MU.STR_EDITS[:6]] if MU._looks_like_time(node) else
+                   ["str:" + e for e in MU.STR_EDITS])
+            op = own[draw(st.integers(0, 10 ** 6)) % len(own)]
         r = MU.apply(doc, {"path": path, "op": op})
         if r is MU.INAPPLICABLE:
             r = MU.apply(doc, {"path": path, "op": "replace:%d" % draw(st.integers(0, len(MU.REPLACEMENTS) - 1))})
